@@ -30,7 +30,7 @@
     NOT covered by a theorem (correspondence + oracle only, see TESTED_NOT_PROVED in harness/props/C04.py): the H2 / H+ explicit
     re-match path of the default mode; RDKit parsing / serialisation and Standardize.fit. *)
 From Coq Require Import List NArith ZArith Bool Permutation.
-From SK Require Import lib.Mono model.C06_Model lib.C06_Spec model.C11_Model.
+From SK Require Import lib.Mono model.C06_Model lib.C06_Spec proof.C06_Comp model.C11_Model.
 From SK Require Import model.C03_Order.
 From SK Require Import lib.Tok lib.LGraph model.C03_Model model.C04_Model model.C04_Reactor proof.C04_Any proof.C04_Check proof.C04_Proof proof.C04_DefaultProof proof.C04_Engine proof.C04_Prune proof.C04_Examples proof.C04_Object proof.C04_Chain proof.C04_Glue proof.C04_Template proof.C04_Fold proof.C04_Default proof.C04_Explicit proof.C04_DefaultEnd proof.C04_DefaultChain proof.C04_CompBt proof.C03_Spec proof.C04_Total proof.C04_TotalDefault proof.C04_TotalEnd proof.C04_TotalAny proof.C04_MonoMatch proof.C04_DefaultChainTotal proof.C04_DefaultNonneg proof.C04_Verified proof.C04_CompBtObject proof.C04_CompBtDefault proof.C04_TotalExamples proof.C04_ObjectExamples.
 Import ListNotations.
@@ -679,45 +679,42 @@ Print Assumptions C04_in_results_verified_default.
 (** * comp / bt for the own templates at the level of the reactor OBJECT (its_list of a fresh reactor), both hydrogen modes; in the
     default mode to the END of its_list: no kept mapping makes _explicit_h raise (they are monomorphisms by C06's comp_spec /
     bt_spec, hence rule matches, C04_engine_match_is_rule_match + C04_any_match_explicit_h_total), and the stage keeps the folded
-    reaction (C04_explicit_h_keeps_reaction).  Same conditions as C04_own_{comp,bt}_{implicit,default}. *)
+    reaction (C04_explicit_h_keeps_reaction).  Same conditions as C04_own_{comp,bt}_{implicit,default}, but for ANY embed_threshold [thr] --
+    None = the default 5000 included -- that is not below C06's explicit bound [comp_bound] (the largest intermediate list of the
+    component-aware search; for bt also the number of exhaustive matches): no "from some T0 on" left (audit-A1, finding 2). *)
 Theorem C04_own_comp_implicit_object : forall (enum : list N -> list N -> list C06_Model.mapping) (rematch : nat -> hostg -> molg -> list C03_Model.mapping)
-    (core invert : bool) (G H : hostg),
+    (core invert : bool) (G H : hostg) (thr : option N),
   pair_wfb G H = true -> no_explicit_H G = true ->
   (core = true -> centre_carries (its_construct G H) = true) ->
   forallb (fun p : N * mnode => 0 <=? m_hc (snd p)) (gnodes (dec_side iG C03_Model.eG (template core invert G H))) = true ->
   oracle_ok enum (tr_host (if invert then H else G)) (tr_pat (dec_side iG C03_Model.eG (template core invert G H))) ->
-  (0 <? length (comps (tr_pat (dec_side iG C03_Model.eG (template core invert G H)))))%nat
-  && (length (comps (tr_pat (dec_side iG C03_Model.eG (template core invert G H)))) <? length (comps (tr_host (if invert then H else G))))%nat = false ->
-  ((length (comps (tr_host (if invert then H else G))) <? length (comps (tr_pat (dec_side iG C03_Model.eG (template core invert G H)))))%nat = true \/
-   id_separatingb (tr_host (if invert then H else G)) (tr_pat (dec_side iG C03_Model.eG (template core invert G H))) = true) ->
-  exists T0 : N, forall T : N, (T0 <= T)%N ->
-    exists (gs : list its) (Tt : its),
-      fst (read_its (api_engine enum) rematch (own_opts invert false (SMember 1%N) (Some T) false) (if invert then H else G)
-                    (template core invert G H, dec_side iG C03_Model.eG (template core invert G H), dec_side iH C03_Model.eH (template core invert G H)) fresh) = Some gs /\
-      In Tt gs /\ regen_exact Tt (if invert then H else G) (if invert then G else H) = true.
-Proof. exact own_comp_implicit_object. Qed.
+  (0 <? length (comps (tr_pat (dec_side iG C03_Model.eG (template core invert G H)))))%nat && (length (comps (tr_pat (dec_side iG C03_Model.eG (template core invert G H)))) <? length (comps (tr_host (if invert then H else G))))%nat = false ->
+  ((length (comps (tr_host (if invert then H else G))) <? length (comps (tr_pat (dec_side iG C03_Model.eG (template core invert G H)))))%nat = true \/ id_separatingb (tr_host (if invert then H else G)) (tr_pat (dec_side iG C03_Model.eG (template core invert G H))) = true) ->
+  (comp_bound enum true (tr_host (if invert then H else G)) (tr_pat (dec_side iG C03_Model.eG (template core invert G H))) <= dflt DEFAULT_THRESHOLD thr)%N ->
+  exists (gs : list its) (Tt : its),
+    fst (read_its (api_engine enum) rematch (own_opts invert false (SMember 1%N) thr false) (if invert then H else G)
+                  (template core invert G H, dec_side iG C03_Model.eG (template core invert G H), dec_side iH C03_Model.eH (template core invert G H)) fresh) = Some gs /\
+    In Tt gs /\ regen_exact Tt (if invert then H else G) (if invert then G else H) = true.
+Proof. exact own_comp_implicit_at. Qed.
 Print Assumptions C04_own_comp_implicit_object.
 
 Theorem C04_own_bt_implicit_object : forall (enum : list N -> list N -> list C06_Model.mapping) (rematch : nat -> hostg -> molg -> list C03_Model.mapping)
-    (core invert : bool) (G H : hostg),
+    (core invert : bool) (G H : hostg) (thr : option N),
   pair_wfb G H = true -> no_explicit_H G = true ->
   (core = true -> centre_carries (its_construct G H) = true) ->
   forallb (fun p : N * mnode => 0 <=? m_hc (snd p)) (gnodes (dec_side iG C03_Model.eG (template core invert G H))) = true ->
   oracle_ok enum (tr_host (if invert then H else G)) (tr_pat (dec_side iG C03_Model.eG (template core invert G H))) ->
-  ((0 <? length (comps (tr_pat (dec_side iG C03_Model.eG (template core invert G H)))))%nat
-   && (length (comps (tr_pat (dec_side iG C03_Model.eG (template core invert G H)))) <? length (comps (tr_host (if invert then H else G))))%nat = true \/
-   (length (comps (tr_host (if invert then H else G))) <? length (comps (tr_pat (dec_side iG C03_Model.eG (template core invert G H)))))%nat = true \/
-   id_separatingb (tr_host (if invert then H else G)) (tr_pat (dec_side iG C03_Model.eG (template core invert G H))) = true) ->
-  exists T0 : N, forall T : N, (T0 <= T)%N ->
-    exists (gs : list its) (Tt : its),
-      fst (read_its (api_engine enum) rematch (own_opts invert false (SMember 2%N) (Some T) false) (if invert then H else G)
-                    (template core invert G H, dec_side iG C03_Model.eG (template core invert G H), dec_side iH C03_Model.eH (template core invert G H)) fresh) = Some gs /\
-      In Tt gs /\ regen_exact Tt (if invert then H else G) (if invert then G else H) = true.
-Proof. exact own_bt_implicit_object. Qed.
+  ((0 <? length (comps (tr_pat (dec_side iG C03_Model.eG (template core invert G H)))))%nat && (length (comps (tr_pat (dec_side iG C03_Model.eG (template core invert G H)))) <? length (comps (tr_host (if invert then H else G))))%nat = true \/ (length (comps (tr_host (if invert then H else G))) <? length (comps (tr_pat (dec_side iG C03_Model.eG (template core invert G H)))))%nat = true \/ id_separatingb (tr_host (if invert then H else G)) (tr_pat (dec_side iG C03_Model.eG (template core invert G H))) = true) ->
+  (N.max (comp_bound enum true (tr_host (if invert then H else G)) (tr_pat (dec_side iG C03_Model.eG (template core invert G H)))) (lenN (enum (node_ids (tr_host (if invert then H else G))) (node_ids (tr_pat (dec_side iG C03_Model.eG (template core invert G H)))))) <= dflt DEFAULT_THRESHOLD thr)%N ->
+  exists (gs : list its) (Tt : its),
+    fst (read_its (api_engine enum) rematch (own_opts invert false (SMember 2%N) thr false) (if invert then H else G)
+                  (template core invert G H, dec_side iG C03_Model.eG (template core invert G H), dec_side iH C03_Model.eH (template core invert G H)) fresh) = Some gs /\
+    In Tt gs /\ regen_exact Tt (if invert then H else G) (if invert then G else H) = true.
+Proof. exact own_bt_implicit_at. Qed.
 Print Assumptions C04_own_bt_implicit_object.
 
 Theorem C04_own_comp_default_object : forall (enum : list N -> list N -> list C06_Model.mapping) (rematch : nat -> hostg -> molg -> list C03_Model.mapping)
-    (core invert : bool) (G H : hostg),
+    (core invert : bool) (G H : hostg) (thr : option N),
   pair_wfb G H = true -> mode_E G H = true ->
   default_okb (if invert then H else G) (if invert then G else H) (template core invert G H) = true ->
   (core = true -> centre_carries (its_construct G H) = true) ->
@@ -725,31 +722,28 @@ Theorem C04_own_comp_default_object : forall (enum : list N -> list N -> list C0
   forall (rc : its) (l r : molg), rule_of core invert G H = Some (rc, l, r) ->
   oracle_ok enum (tr_host (substrate invert G H)) (tr_pat l) ->
   (0 <? length (comps (tr_pat l)))%nat && (length (comps (tr_pat l)) <? length (comps (tr_host (substrate invert G H))))%nat = false ->
-  ((length (comps (tr_host (substrate invert G H))) <? length (comps (tr_pat l)))%nat = true \/
-   id_separatingb (tr_host (substrate invert G H)) (tr_pat l) = true) ->
-  exists T0 : N, forall T : N, (T0 <= T)%N ->
-    exists (gs : list its) (T' : its),
-      fst (read_its (api_engine enum) rematch (own_opts invert true (SMember 1%N) (Some T) false) (substrate invert G H) (rc, l, r) fresh) = Some gs /\
-      In T' gs /\ regen_folded T' (if invert then H else G) (if invert then G else H) = true.
-Proof. exact own_comp_default_object. Qed.
+  ((length (comps (tr_host (substrate invert G H))) <? length (comps (tr_pat l)))%nat = true \/ id_separatingb (tr_host (substrate invert G H)) (tr_pat l) = true) ->
+  (comp_bound enum true (tr_host (substrate invert G H)) (tr_pat l) <= dflt DEFAULT_THRESHOLD thr)%N ->
+  exists (gs : list its) (T' : its),
+    fst (read_its (api_engine enum) rematch (own_opts invert true (SMember 1%N) thr false) (substrate invert G H) (rc, l, r) fresh) = Some gs /\
+    In T' gs /\ regen_folded T' (if invert then H else G) (if invert then G else H) = true.
+Proof. exact own_comp_default_at. Qed.
 Print Assumptions C04_own_comp_default_object.
 
 Theorem C04_own_bt_default_object : forall (enum : list N -> list N -> list C06_Model.mapping) (rematch : nat -> hostg -> molg -> list C03_Model.mapping)
-    (core invert : bool) (G H : hostg),
+    (core invert : bool) (G H : hostg) (thr : option N),
   pair_wfb G H = true -> mode_E G H = true ->
   default_okb (if invert then H else G) (if invert then G else H) (template core invert G H) = true ->
   (core = true -> centre_carries (its_construct G H) = true) ->
   own_valence_okb core invert G H = true ->
   forall (rc : its) (l r : molg), rule_of core invert G H = Some (rc, l, r) ->
   oracle_ok enum (tr_host (substrate invert G H)) (tr_pat l) ->
-  ((0 <? length (comps (tr_pat l)))%nat && (length (comps (tr_pat l)) <? length (comps (tr_host (substrate invert G H))))%nat = true \/
-   (length (comps (tr_host (substrate invert G H))) <? length (comps (tr_pat l)))%nat = true \/
-   id_separatingb (tr_host (substrate invert G H)) (tr_pat l) = true) ->
-  exists T0 : N, forall T : N, (T0 <= T)%N ->
-    exists (gs : list its) (T' : its),
-      fst (read_its (api_engine enum) rematch (own_opts invert true (SMember 2%N) (Some T) false) (substrate invert G H) (rc, l, r) fresh) = Some gs /\
-      In T' gs /\ regen_folded T' (if invert then H else G) (if invert then G else H) = true.
-Proof. exact own_bt_default_object. Qed.
+  ((0 <? length (comps (tr_pat l)))%nat && (length (comps (tr_pat l)) <? length (comps (tr_host (substrate invert G H))))%nat = true \/ (length (comps (tr_host (substrate invert G H))) <? length (comps (tr_pat l)))%nat = true \/ id_separatingb (tr_host (substrate invert G H)) (tr_pat l) = true) ->
+  (N.max (comp_bound enum true (tr_host (substrate invert G H)) (tr_pat l)) (lenN (enum (node_ids (tr_host (substrate invert G H))) (node_ids (tr_pat l)))) <= dflt DEFAULT_THRESHOLD thr)%N ->
+  exists (gs : list its) (T' : its),
+    fst (read_its (api_engine enum) rematch (own_opts invert true (SMember 2%N) thr false) (substrate invert G H) (rc, l, r) fresh) = Some gs /\
+    In T' gs /\ regen_folded T' (if invert then H else G) (if invert then G else H) = true.
+Proof. exact own_bt_default_at. Qed.
 Print Assumptions C04_own_bt_default_object.
 
 (** * strategy comp in the strict_cc_count guard region: REFUTED (known findings *:comp:guard)
@@ -805,3 +799,42 @@ Theorem C04_any_match_explicit_h_total_any_order : forall (A B : hostg) (tpl rc 
   explicit_h_ord ord T <> None.
 Proof. exact any_match_total_ord. Qed.
 Print Assumptions C04_any_match_explicit_h_total_any_order.
+
+(** * comp / bt for any rule with an EXPLICIT threshold bound (closes the "from some T0 on" of C04_{comp,bt}_regenerates_partial): for
+    any options [o] with that strategy and no pre-filter whose effective threshold [dflt DEFAULT_THRESHOLD (o_thr o)] is not below
+    C06's [comp_bound] (for bt: nor below the number of exhaustive matches); also exported: every kept mapping is a monomorphism *)
+Theorem C04_comp_regenerates_at : forall (enum : list N -> list N -> list C06_Model.mapping)
+    (A B : hostg) (rc : its) (l r : molg),
+  pair_wf A B -> describes A B rc -> left_of rc l -> has_XH l = false ->
+  forallb (fun p : N * mnode => 0 <=? m_hc (snd p)) (gnodes l) = true ->
+  gwf (tr_host A) -> gwf (tr_pat l) -> oracle_ok enum (tr_host A) (tr_pat l) ->
+  forall o : ropts,
+  (0 <? length (comps (tr_pat l)))%nat && (length (comps (tr_pat l)) <? length (comps (tr_host A)))%nat = false ->
+  ((length (comps (tr_host A)) <? length (comps (tr_pat l)))%nat = true \/
+   separating (tr_host A) (tr_pat l) (id_map (node_ids l))) ->
+  o_strategy o = SMember 1%N -> o_pref o = false ->
+  (comp_bound enum true (tr_host A) (tr_pat l) <= dflt DEFAULT_THRESHOLD (o_thr o))%N ->
+  exists (ms : list C03_Model.mapping) (y : C03_Model.mapping) (T' : its),
+    compute_mappings (api_engine enum) o A (rc, l, r) = Some ms /\
+    (forall m, In m ms -> is_mono (tr_host A) (tr_pat l) m) /\ In y ms /\
+    glue A rc y = Some T' /\ regen_exact T' A B = true.
+Proof. exact comp_regenerates_at. Qed.
+Print Assumptions C04_comp_regenerates_at.
+
+Theorem C04_bt_regenerates_at : forall (enum : list N -> list N -> list C06_Model.mapping)
+    (A B : hostg) (rc : its) (l r : molg),
+  pair_wf A B -> describes A B rc -> left_of rc l -> has_XH l = false ->
+  forallb (fun p : N * mnode => 0 <=? m_hc (snd p)) (gnodes l) = true ->
+  gwf (tr_host A) -> gwf (tr_pat l) -> oracle_ok enum (tr_host A) (tr_pat l) ->
+  forall o : ropts,
+  ((0 <? length (comps (tr_pat l)))%nat && (length (comps (tr_pat l)) <? length (comps (tr_host A)))%nat = true \/
+   (length (comps (tr_host A)) <? length (comps (tr_pat l)))%nat = true \/
+   separating (tr_host A) (tr_pat l) (id_map (node_ids l))) ->
+  o_strategy o = SMember 2%N -> o_pref o = false ->
+  (N.max (comp_bound enum true (tr_host A) (tr_pat l)) (lenN (enum (node_ids (tr_host A)) (node_ids (tr_pat l)))) <= dflt DEFAULT_THRESHOLD (o_thr o))%N ->
+  exists (ms : list C03_Model.mapping) (y : C03_Model.mapping) (T' : its),
+    compute_mappings (api_engine enum) o A (rc, l, r) = Some ms /\
+    (forall m, In m ms -> is_mono (tr_host A) (tr_pat l) m) /\ In y ms /\
+    glue A rc y = Some T' /\ regen_exact T' A B = true.
+Proof. exact bt_regenerates_at. Qed.
+Print Assumptions C04_bt_regenerates_at.
